@@ -19,7 +19,8 @@ import subprocess
 import sys
 
 VERIF = os.path.dirname(os.path.dirname(os.path.abspath(__file__)))
-OUT = "/tmp/seeded_out"
+OUT = os.environ.get("SEEDED_OUT", "/tmp/seeded_out")
+PREFIX = os.environ.get("SEEDED_PREFIX", "agent")
 WT = "/tmp/confirm_wt"
 
 
@@ -47,7 +48,7 @@ def main() -> int:
                     continue
                 seen.add(n)
                 demo = next((p for p in (os.path.join(d, f"demo{n}.py"), os.path.join(d, f"demo__{n}__.py"), os.path.join(d, f"demo_{n}.py")) if os.path.exists(p)), None)
-                sid = f"agent-{pid}-{n}"
+                sid = f"{PREFIX}-{pid}-{n}"
                 sh(["git", "-C", WT, "checkout", "--", "."])
                 rec = dict(id=sid, property=pid, author="independent sub-agent (given only the property text and a scratch worktree)")
                 if demo is None:
